@@ -89,6 +89,14 @@ def runDecisions (sc : Scen) (ds : List Nat) : List String := Id.run do
       for l in o do out := out.push l
       rt := rt'
   out := out.push (digest rt)
+  -- ghost record (model only; not compared): do the hypotheses of the data-path theorems hold at the end of this run?
+  let mut i := 0
+  for st in rt.streams do
+    if st.valid then
+      let ids := st.sto.log.map (·.id)
+      let inOrder := ids == List.range ids.length && st.sto.log.all (fun f => f.hw == f.id && f.run == st.cam.run)
+      out := out.push s!"G s{i} log={st.sto.log.length} inorder={b2n inOrder} ncommit={st.sto.ncommit} max={st.maxFrames} drained={b2n st.sto.drained} disturbed={b2n st.sto.disturbed} clean={b2n st.sto.clean} dropped={b2n st.sto.dropped} camfail={b2n st.cam.failAt.isSome} misused={b2n rt.client.misused} monfresh={b2n st.sto.monFresh} monflushed={b2n st.monFlushed}"
+    i := i + 1
   out := out.push "END"
   return out.toList
 
